@@ -248,11 +248,14 @@ pub struct IoOpts {
     pub multi_project_pct: usize,
     pub max_targets: usize,
     pub cmd_pct: usize,
+    /// extra chance that a build's outputs include the command resource `ver` (the same command
+    /// text in every project directory)
+    pub cmd_output_pct: usize,
 }
 
 impl Default for IoOpts {
     fn default() -> Self {
-        IoOpts { multi_project_pct: 40, max_targets: 5, cmd_pct: 25 }
+        IoOpts { multi_project_pct: 40, max_targets: 5, cmd_pct: 25, cmd_output_pct: 0 }
     }
 }
 
@@ -444,6 +447,11 @@ pub fn gen_io(rng: &mut Rng, o: &IoOpts) -> Scenario {
                     t.writes.push(out);
                 }
                 _ => {}
+            }
+            if o.cmd_output_pct > 0 && rng.chance(o.cmd_output_pct) && !t.output.iter().any(|r| matches!(r, Res::Cmd { .. })) {
+                let key = "ver".to_string();
+                vars.entry(format!("{}__{}", pdir.replace('/', "+"), key)).or_insert_with(|| format!("{} out 1\n", pdir));
+                t.output.push(Res::Cmd { key });
             }
             if rng.chance(15) {
                 t.size = rng.range(1200, 2500);
